@@ -106,17 +106,31 @@ def _run_unit(unit, out_dir, log):
         env["PTFACTS_OUT"] = out_dir
         env["PTFACTS_TAG"] = inv["tag"]
         env["RUSTFLAGS"] = ("-Awarnings " + inv["flags"]).strip()
+        cwd = inv["cwd"]
+        scratch = None
         if inv.get("fixture"):
-            # fixtures path-depend on /repo: they must resolve exactly like /repo does
+            # fixtures path-depend on the repository under analysis: build a scratch copy whose manifest points at REPO
+            # (normally /repo) and that resolves exactly like it (same Cargo.lock)
+            scratch = os.path.join(WORK, "fx", "%s-%d" % (unit, os.getpid()))
+            shutil.rmtree(scratch, ignore_errors=True)
+            shutil.copytree(inv["cwd"], scratch, ignore=shutil.ignore_patterns("target", "Cargo.lock"))
+            mf = os.path.join(scratch, "Cargo.toml")
+            with open(mf) as fh:
+                txt = fh.read()
+            with open(mf, "w") as fh:
+                fh.write(txt.replace('"/repo/', '"%s/' % REPO.rstrip("/")))
             lock = os.path.join(REPO, "Cargo.lock")
             if os.path.isfile(lock):
-                shutil.copy(lock, os.path.join(inv["cwd"], "Cargo.lock"))
+                shutil.copy(lock, os.path.join(scratch, "Cargo.lock"))
+            cwd = scratch
         cmd = ["cargo", "+nightly", "check", "--offline"] + inv["args"]
         t0 = time.time()
         try:
-            p = subprocess.run(cmd, cwd=inv["cwd"], env=env, stdout=subprocess.PIPE, stderr=subprocess.STDOUT, text=True)
+            p = subprocess.run(cmd, cwd=cwd, env=env, stdout=subprocess.PIPE, stderr=subprocess.STDOUT, text=True)
         finally:
             shutil.rmtree(tgt, ignore_errors=True)
+            if scratch:
+                shutil.rmtree(scratch, ignore_errors=True)
         log.write("$ (cd %s; %s)  [%0.1fs, rc=%d]\n" % (inv["cwd"], " ".join(cmd), time.time() - t0, p.returncode))
         if p.returncode != 0:
             log.write(p.stdout[-6000:])
